@@ -4,6 +4,7 @@
 EXTENDS Naturals, Sequences, FiniteSets, TLC, Json, SequencesExt, FiniteSetsExt
 
 SOH == ndJsonDeserialize("soh.ndjson")[1].c   \* the byte 0x01 (not expressible as a TLA+ literal)
+NUL == ndJsonDeserialize("soh.ndjson")[2].c   \* the byte 0x00
 CR == "\r"
 LF == "\n"
 
